@@ -63,6 +63,7 @@ def main():
                 lam = np.arange(1.0, n + 1) * rng.choice([-1, 1], n)
                 M = S @ np.diag(lam) @ np.linalg.inv(S)
                 cases.append((f"n={n} indefinite spectrum, eigenvector right-hand sides", M, cplx, S[:, :3]))
+                cases.append((f"n={n} indefinite spectrum, one column in a 2-dimensional invariant subspace next to two generic columns", M, cplx, ("mixed", S[:, :2])))
     for n in (5, 12):
         cases.append((f"n={n} real operator, complex right-hand sides", rnd(n, n) + 0.5 * np.eye(n), "crhs", "random"))
     for name, M, cplx, rhs_kind in cases:
@@ -73,7 +74,10 @@ def main():
         scale = 10.0 ** rng.integers(-2, 3)
         M = M * scale
         kcols = 3 if n >= 3 else 1
-        if isinstance(rhs_kind, str):
+        if isinstance(rhs_kind, tuple):       # the block Arnoldi run must go on for the generic columns after the first one has broken down
+            B = rnd(n, kcols, cplx=cplx)
+            B[:, 0] = rhs_kind[1] @ np.array([1.0, 0.7])
+        elif isinstance(rhs_kind, str):
             B = rnd(n, kcols, cplx=cplx or crhs) * np.array([10.0 ** rng.integers(-2, 3) for _ in range(kcols)])
         else:
             B = rhs_kind[:, :kcols] @ np.diag(rng.uniform(0.5, 2, kcols)) + (rhs_kind[:, [1, 2, 0]][:, :kcols] if kcols == 3 else 0)   # sums of two eigenvectors
